@@ -355,8 +355,18 @@ def loop_cover_rule(F, R):
                 o = strip_sites(b.origin(c.args[1]))
                 if o[0] == "agg" and o[1][0] == "closure" and F.body(o[1][1]) is not None:
                     cb = F.body(o[1][1])
-                    cmpk = [(st[2][1], const_int(st[2][3])) for bb in cb.live_blocks() for st in cb.stmts(bb)
-                            if st[0] == "=" and st[2][0] == "bin" and st[2][1] in ("Gt", "Ge")]
+                    cmpk = []
+                    for bb in cb.live_blocks():
+                        for st in cb.stmts(bb):
+                            if st[0] == "=" and st[2][0] == "bin" and st[2][1] in ("Gt", "Ge", "Lt", "Le"):
+                                kr, kl = const_int(st[2][3]), const_int(st[2][2])
+                                if kr is not None:
+                                    cmpk.append((st[2][1], kr))
+                                elif kl is not None:      # constant on the left: mirror
+                                    cmpk.append(({"Lt": "Gt", "Le": "Ge", "Gt": "Lt", "Ge": "Le"}[st[2][1]], kl))
+                    if len(cmpk) != 1 or cmpk[0][0] not in ("Gt", "Ge"):
+                        R.ob("LOOP-cover", "has_loops: count predicate %s not recognised — not decided" % cmpk, True, False)
+                        continue
                     ok = cmpk in ([("Gt", 2)], [("Ge", 3)])
                     R.ob("LOOP-cover", "has_loops: per-AS interface count threshold is > 2", ok, True, {"rule": "LOOP-cover", "cmp": cmpk})
                     if not ok:
@@ -375,6 +385,11 @@ def key_eq_rule(F, R):
         return
     b = F.body(cands[0])
     R.fn(cands[0])
+    adt = [a for k, a in F.adts.items() if k.endswith("combinator::graph::InputSegment")]
+    vnames = sorted(v[0] for v in adt[0]["variants"]) if adt else []
+    if vnames != ["Core", "NonCore"]:
+        R.ob("KEY-eq", "InputSegment is no longer the two-variant enum (variants %s) — not decided" % vnames, True, False)
+        return
     for V in ("Core", "NonCore"):
         ok = False
         for c in b.calls:
